@@ -522,9 +522,80 @@ def rule_aliases(repo: Repo, rep: Report) -> int:
     return n
 
 
+BENCH_PAIRS = (
+    ([0, 1, 1, 0, 1, 0, 0, 1, 1, 1, 0, 0], [0, 1, 1, 0, 1, 0, 0, 1, 1, 1, 0, 0]),
+    ([0, 1, 1, 0, 1, 0, 0, 1, 1, 1, 0, 0], [1, 0, 0, 1, 0, 1, 1, 0, 0, 0, 1, 1]),
+    ([0, 1, 1, 0, 1, 0, 0, 1, 1, 1, 0, 0], [0, 1, 1, 0, 1, 1, 0, 1, 1, 1, 0, 0]),
+    ([0, 1, 1, 0, 1, 0, 0, 1, 1, 1, 0, 0], [1, 1, 1, 0, 1, 0, 0, 1, 1, 1, 0, 1]),
+    ([0, 0, 0, 0, 0, 0, 1, 1, 1, 1, 1, 1], [0, 1, 1, 0, 0, 0, 1, 1, 1, 0, 0, 1]),
+)
+
+
+def bench_evaluated(ci, which: str):
+    """The benchmark helper evaluated (own arithmetic) on binary word pairs - equal, complementary, one difference, a
+    difference in the first and last position, scattered - and, for the block form, every block size dividing 12: the value
+    must be the exact fraction of differing positions / of blocks with at least one difference."""
+    from ..constfold import Unfoldable
+    from ..frag import FragRaise, FragReturn, run_fragment
+
+    fi = ci.methods[which]
+    cases = 0
+    for x, y in BENCH_PAIRS:
+        for B in ((None,) if which == "bit_error_rate" else (1, 2, 3, 4, 6, 12)):
+            names = {"transmitted": [float(v) for v in x], "received": [float(v) for v in y]}
+            if B is not None:
+                names["block_size"] = B
+            layouts = [names]
+            if B is None:
+                # the bit error rate is defined for any shape: the same words as (3, 4) and (2, 2, 3) tensors
+                layouts.append({k_: [v_[i : i + 4] for i in range(0, 12, 4)] for k_, v_ in names.items()})
+                layouts.append({k_: [[v_[i : i + 3], v_[i + 3 : i + 6]] for i in range(0, 12, 6)] for k_, v_ in names.items()})
+            for names in layouts[1:]:
+                try:
+                    run_fragment(fi.body, names, {}, ctors={"torch.Tensor": list}, materialise=True, max_steps=100000)
+                    return None, "no value returned"
+                except FragReturn as ret:
+                    got2 = ret.value
+                except (Unfoldable, FragRaise, TypeError, IndexError, ValueError, ZeroDivisionError) as exc:
+                    return None, str(exc)
+                want2 = sum(a != b for a, b in zip(x, y)) / len(x)
+                if not isinstance(got2, (int, float)) or isinstance(got2, bool):
+                    return None, f"result {got2!r} is not a number"
+                if abs(got2 - want2) > 1e-12:
+                    return VIOLATION, f"{which} of the words {x}, {y} laid out as a tensor of rank {2 if isinstance(names['transmitted'][0][0], float) else 3} is {got2}; the exact fraction of differing positions is {want2}"
+                cases += 1
+            names = layouts[0]
+            try:
+                run_fragment(fi.body, names, {}, ctors={"torch.Tensor": list}, materialise=True, max_steps=100000)
+                return None, "no value returned"
+            except FragReturn as ret:
+                got = ret.value
+            except (Unfoldable, FragRaise, TypeError, IndexError, ValueError, ZeroDivisionError) as exc:
+                return None, str(exc)
+            if not isinstance(got, (int, float)) or isinstance(got, bool):
+                return None, f"result {got!r} is not a number"
+            if B is None:
+                want = sum(a != b for a, b in zip(x, y)) / len(x)
+            else:
+                want = sum(any(a != b for a, b in zip(x[i : i + B], y[i : i + B])) for i in range(0, len(x), B)) / (len(x) // B)
+            if abs(got - want) > 1e-12:
+                return VIOLATION, f"{which}({x}, {y}" + (f", block_size={B}" if B else "") + f") is {got}; the exact fraction of differing {'positions' if B is None else 'blocks'} is {want}"
+            cases += 1
+    return OK, f"{cases} cases: the exact fraction of differing {'positions' if which == 'bit_error_rate' else 'blocks (every block size dividing the length)'}"
+
+
 def rule_benchmark(repo: Repo, rep: Report) -> int:
     n = 0
     ci = repo.cls(BM, "StandardMetrics")
+    decided = set()
+    for which in ("bit_error_rate", "block_error_rate"):
+        st_, d_ = bench_evaluated(ci, which)
+        if st_ is not None:
+            rep.add("BENCH", repo.method(ci, which), f"{which} evaluated on binary word pairs", st_, d_, node=repo.method(ci, which).node)
+            decided.add(which)
+    if len(decided) == 2:
+        return 2
+    # fallback for a helper the evaluator cannot follow: the free-term form (another spelling gives no verdict, not an alarm)
     fi = repo.method(ci, "bit_error_rate")
     t = Terms(fi, repo, ci, config=lambda test, env: False if "isinstance" in unparse(test) else None)
     t.run({"transmitted": single("x"), "received": single("y")})
@@ -533,7 +604,8 @@ def rule_benchmark(repo: Repo, rep: Report) -> int:
         got |= set(v or ())
     want = {"((x != y).sum() / x.numel())", "((x != y).sum() / y.numel())"}
     ok = bool(got) and got <= want
-    rep.check(ok, "BENCH", fi, f"bit_error_rate = {' | '.join(sorted(got))}", "count of differing positions / number of elements (the BER metric on binary inputs)", f"benchmark BER differs from count(!=)/numel", node=fi.node)
+    if "bit_error_rate" not in decided:
+        rep.shape(ok, False, "BENCH", fi, f"bit_error_rate = {' | '.join(sorted(got))}", "count of differing positions / number of elements (the BER metric on binary inputs)", f"benchmark BER differs from count(!=)/numel", node=fi.node)
     n += 1
     fi = repo.method(ci, "block_error_rate")
     t = Terms(fi, repo, ci, config=lambda test, env: False if "isinstance" in unparse(test) else None)
@@ -547,7 +619,8 @@ def rule_benchmark(repo: Repo, rep: Report) -> int:
     want = {f"(({xb} != {yb}).any(dim=1).sum() / {nb})"}
     alt = {w.replace(f"({nb} * B)", f"(B * {nb})") for w in want}
     ok = bool(got) and (got <= want or got <= alt)
-    rep.check(ok, "BENCH", fi, f"block_error_rate = {' | '.join(sorted(got))[:260]}", "blocks with at least one difference / number of blocks", "benchmark BLER differs from any-per-block / number of blocks", node=fi.node)
+    if "block_error_rate" not in decided:
+        rep.shape(ok, False, "BENCH", fi, f"block_error_rate = {' | '.join(sorted(got))[:260]}", "blocks with at least one difference / number of blocks", "benchmark BLER differs from any-per-block / number of blocks", node=fi.node)
     n += 1
     return n
 
